@@ -21,10 +21,10 @@ pub fn def() -> CheckDef {
         info: CheckInfo {
             id: "C09",
             level: "fault_enumeration",
-            rule: "one seeded run = one fault-free history (edits, backups with any options, backups killed after their header was written, deletes, gc). Healthy side: after every archive-changing step full and quick validation must return Ok with no error. Damage side: for the final store, EVERY stored file except band tails x {delete, truncate to 0, truncate to half, overwrite with seeded garbage} plus two seeded bit flips per block; for each damaged store every version (complete or not) is restored and compared with its pre-damage restore, and only if some version no longer restores exactly must validation (quick for deletions, full otherwise) report at least one error or fail. One evaluation = one validated store. Non-trivial: the damage changed some version's restore; distinct = distinct (store hash, path, damage kind).",
+            rule: "one seeded run = one fault-free history (edits, backups with any options, backups killed after their header was written, deletes, gc). Healthy side: after every archive-changing step full and quick validation must return Ok with no error. Damage side: for the final store, EVERY stored file x {delete (not for band tails: an absent tail is the legal incomplete state), truncate to 0, truncate to half, overwrite with seeded garbage} plus two seeded bit flips per block; for each damaged store every version (complete or not) is restored and compared with its pre-damage restore, and only if some version no longer restores exactly must validation (quick for deletions, full otherwise) report at least one error or fail. One evaluation = one validated store. Non-trivial: the damage changed some version's restore; distinct = distinct (store hash, path, damage kind).",
             assumptions: &[
                 "'interrupted-with-header' histories kill backups only after BANDHEAD was written and never leave zero-length files",
-                "damage that changes no restore demands nothing; removal of a tail is the format's legal incomplete state and is not injected here",
+                "damage that changes no restore demands nothing; removal of a tail is the format's legal incomplete state and is not injected; truncation and overwriting of tails are",
             ],
             real: super::REAL_COMPONENTS,
             stub: super::STUB_COMPONENTS,
@@ -39,6 +39,7 @@ pub fn def() -> CheckDef {
             "damage_immaterial",
             "damaged_header",
             "damaged_head",
+            "damaged_tail",
             "damaged_hunk",
             "damaged_block",
             "bitflip_in_block",
@@ -117,6 +118,26 @@ pub fn gen_healthy_history(seed: u64, tier: Tier, check: &str) -> Scenario {
         plan.crash_on = Some(("write".into(), "*/i/".into()));
         plan.crash_on_skip = 1 + r.below(2) as u32;
         sc.steps.push(Step::Backup { opts, plan });
+    } else if r.chance(1, 2) {
+        // directed tail: a complete version, then the entry that sorts LAST is removed and
+        // another complete version is made. If anything ever treated that newest version as
+        // incomplete, the removed entry would come back from the older one.
+        sc.steps.push(Step::Backup { opts: opts.clone(), plan: FaultPlan::none() });
+        let mut model = crate::tree::TreeModel::new(sc.root_meta);
+        for s in &sc.steps {
+            if let Step::Edit(es) = s {
+                for e in es {
+                    model.apply(e);
+                }
+            }
+        }
+        let mut paths: Vec<&String> = model.nodes.keys().filter(|k| k.as_str() != "/").collect();
+        paths.sort_by(|a, b| crate::format::ref_cmp(a, b));
+        if let Some(last) = paths.last() {
+            // remove the top-level ancestor of the last path unless that empties the tree
+            sc.steps.push(Step::Edit(vec![crate::tree::EditOp::Remove { path: (*last).clone() }]));
+        }
+        sc.steps.push(Step::Backup { opts, plan: FaultPlan::none() });
     } else {
         sc.steps.push(Step::Backup { opts, plan: FaultPlan::none() });
     }
@@ -270,7 +291,12 @@ fn execute_found(sc: &Scenario, acc: &mut Acc) -> Result<Vec<Found>, String> {
         vec![d]
     } else if enumerate {
         acc.exhaustive_within_scenario = true;
-        enumerate_damages(&w, sc.seed, false, true, false, sc.params.get("flips").and_then(|v| v.as_u64()).unwrap_or(2))
+        // band tails: only their REMOVAL is the format's legal "incomplete" state; a tail
+        // truncated or overwritten is damage like any other
+        enumerate_damages(&w, sc.seed, true, true, false, sc.params.get("flips").and_then(|v| v.as_u64()).unwrap_or(2))
+            .into_iter()
+            .filter(|(p, k, _)| !(p.ends_with("BANDTAIL") && *k == DamageKind::Delete))
+            .collect()
     } else {
         vec![]
     };
@@ -294,6 +320,8 @@ fn execute_found(sc: &Scenario, acc: &mut Acc) -> Result<Vec<Found>, String> {
             "header"
         } else if path.ends_with("BANDHEAD") {
             "head"
+        } else if path.ends_with("BANDTAIL") {
+            "tail"
         } else if path.contains("/i/") {
             "hunk"
         } else if path.starts_with("d/") {
